@@ -8,5 +8,5 @@ for f in spec/*.tla; do
 done
 cp /repo/go.sum harness/go.sum
 mkdir -p out/bin evidence
-(cd harness && go1.26.8 vet -tags verif ./... && go1.26.8 test -tags verif -c -o ../out/bin/sim.test ./sim && go1.26.8 test -tags verif -c -o ../out/bin/l1.test ./l1)
+(cd harness && go1.26.8 vet -tags verif ./... && go1.26.8 test -tags verif -c -o ../out/bin/sim.test ./sim && go1.26.8 test -tags verif -c -o ../out/bin/l1.test ./l1 && go1.26.8 test -tags verif -c -o ../out/bin/comp.test ./comp)
 echo setup ok
